@@ -284,18 +284,33 @@ func (s *SwapStateMachine) exponentialBackoffAndJitter() {
 
 // Recover tries to continue from the current state, by doing the associated Action
 func (s *SwapStateMachine) Recover() (bool, error) {
+	nextEvent, done, err := s.recoverAction()
+	if err != nil {
+		return false, err
+	}
+	if nextEvent == NoOp {
+		return done, nil
+	}
+	return s.SendEvent(nextEvent, nil)
+}
+
+// recoverAction runs the action of the current state under the swap's mutex,
+// as SendEvent does: messages and watcher callbacks for this swap can already
+// arrive while the swaps are being recovered.
+func (s *SwapStateMachine) recoverAction() (EventType, bool, error) {
+	s.mutex.Lock()
+	defer s.mutex.Unlock()
+
 	log.Infof("[Swap:%s]: Recovering from state %s", s.SwapId.String(), s.Current)
 	state, ok := s.States[s.Current]
 	if !ok {
-		return false, fmt.Errorf("unknown state: %s for swap %s", s.Current, s.SwapId.String())
+		return NoOp, false, fmt.Errorf("unknown state: %s for swap %s", s.Current, s.SwapId.String())
 	}
 
 	if s.Current == Default {
 		// The process stopped after the swap was stored for the first time but
 		// before its first transition. Nothing has been sent, paid or broadcast
 		// yet, so the swap is cancelled instead of staying active forever.
-		s.mutex.Lock()
-		defer s.mutex.Unlock()
 		s.Previous = s.Current
 		s.setState(State_SwapCanceled)
 		s.Data.SetState(State_SwapCanceled)
@@ -303,28 +318,25 @@ func (s *SwapStateMachine) Recover() (bool, error) {
 			s.Data.CancelMessage = "swap was interrupted before it started"
 		}
 		if err := s.swapServices.swapStore.UpdateData(s); err != nil {
-			return false, err
+			return NoOp, false, err
 		}
-		return true, nil
+		return NoOp, true, nil
 	}
 
-	if !ok || state.Action == nil {
+	if state.Action == nil {
 		// configuration error
-		return false, ErrFsmConfig
+		return NoOp, false, ErrFsmConfig
 	}
 	if state.FailOnrecover {
-		return s.SendEvent(Event_ActionFailed, nil)
+		return Event_ActionFailed, false, nil
 	}
 
 	nextEvent := state.Action.Execute(s.swapServices, s.Data)
 	err := s.swapServices.swapStore.UpdateData(s)
 	if err != nil {
-		return false, err
+		return NoOp, false, err
 	}
-	if nextEvent == NoOp {
-		return false, nil
-	}
-	return s.SendEvent(nextEvent, nil)
+	return nextEvent, false, nil
 }
 
 // IsFinished returns true if the swap is already finished
